@@ -165,7 +165,7 @@ def thorough_extras(pid):
         from mutants.catalog import MUTANTS
         ids = [m["id"] for m in MUTANTS if pid in m.get("props", [])]
         if ids:
-            for mid, status, detail in run_mutants.run(ids, jobs=4):
+            for mid, status, detail in run_mutants.run(ids, jobs=2):
                 out["mutants"][mid] = status
     except Exception as e:      # the self-test never turns into a verdict about /repo
         out["mutants"]["(self-test failed to run)"] = "ERROR %s" % e
